@@ -3,7 +3,7 @@ C09 at frame and stream level, in BITS WRITTEN — "no frame is larger than its 
 
 `C09_subframe` / `C09_frame` (Theorems/C09.lean) bound the sizes the sub-frames REPORT (`count_bits`).
 Here: every sub-frame `encode_frame` returns is well-formed for EVERY oracle log satisfying `OEvent.Ok`
-(no `LpcFits` hypothesis: well-formedness does not need the LPC residual to be exact), so by C08 the
+(no hypothesis on the LPC residual), so by C08 the
 reported sizes are the written sizes, `Frame::write` / `Stream::write` succeed, and
 
 * every emitted frame is at most as long as the frame with the same header fields and only verbatim
@@ -21,7 +21,7 @@ import FlacVerif.Lemmas.ExtrasC09
 namespace FlacVerif
 
 /-- Every sub-frame `encode_subframe` returns is well-formed — for every oracle log satisfying
-`OEvent.Ok` (`C01_subframe_strict'` proves this together with losslessness, under `LpcFits`). -/
+`OEvent.Ok` (`C01_subframe_strict'` proves this together with losslessness). -/
 theorem C09_subframe_wf (cfg : SubCfg) (xs : List Int) (bps : Nat) (log log' : List OEvent) (s : SubFrame)
     (hn : 1 ≤ xs.length) (hlen : xs.length < 2 ^ 16) (hb : 1 ≤ bps ∧ bps ≤ 25)
     (hx : ∀ x ∈ xs, SubFrame.inRange bps x = true) (hmax : cfg.maxP ≤ 14)
@@ -77,7 +77,7 @@ theorem C09_frame_vs_verbatim (cfg : SubCfg) (st : StereoCfg) (chans : List (Lis
 
 /-- **C09, stream, bits written (exact headers).** For every configuration (`maxP ≤ 14`), block size
 `1 ≤ bs < 2^16`, 1 to 8 channels of equal length `total < 2^36`, sample width `1 ≤ bps ≤ 24`, every rate,
-every MD5 function producing 16 bytes and EVERY oracle log satisfying `OEvent.Ok` (no `StreamFits`): if
+every MD5 function producing 16 bytes and EVERY oracle log satisfying `OEvent.Ok`: if
 `encode_with_fixed_block_size` returns a stream, `Stream::write` succeeds, writes exactly `count_bits`
 bits, and at most 42 bytes plus, for block `i` of `n_i` samples, the frame made of its own header
 (frame number `i`) and verbatim sub-frames. -/
